@@ -321,6 +321,9 @@ class Application:
         time.
         """
         constraints = (self.affinity.constraints + (self.lease,))
+        if self._traits:
+            # App traits restrict placement as well.
+            constraints += (self._traits,)
         if self.allocation:
             constraints += self.allocation.constraints
 
